@@ -92,11 +92,32 @@ def run(tier, seed):
             a["max_scale"] = 1.0 if rng.random() < 0.5 else float(rng.uniform(0.2, 1.0))
             if cb:
                 a["cheb_samples"] = int(max(20, 2 * a["degree"] + 2))
+                r = rng.random()
+                if r < 0.3:
+                    a.pop("cheb_samples")            # the library default (20 nodes), whatever the degree
+                    ctx.count("cheb_samples:library-default" + (":degree>=20" if a["degree"] >= 20 else ""))
+                elif r < 0.45:
+                    a["cheb_samples"] = int(a["degree"]) + 1
+                    ctx.count("cheb_samples:degree+1")
             out = G.call(PL, name, a, True, False, cb)
             ctx.count("sweep:" + name)
             ctx.case(["sweep", name, a, cb], True, {"generator": name, "args": a, "chebyshev_basis": cb, "status": out["status"], "sweep": True})
             if out["status"] == "ok":
                 decide(ctx, drv, name, a, cb, out["coefs"], bound_for(name, a), {"generator": name, "args": a, "chebyshev_basis": cb})
+    # every Taylor-family generator at degrees at and above the default node count (20), nodes left to the library
+    for name in G.REG:
+        if G.REG[name][1] != "erf":
+            continue
+        for deg0 in ((20, 21, 30, 45, 60) if tier == "quick" else range(19, 61)):
+            args = G.sample_args(rng, name, True, tier)
+            par = args["degree"] % 2
+            args["degree"] = deg0 + ((par - deg0) % 2)
+            args.pop("cheb_samples", None)
+            out = G.call(PL, name, args, True, False, True)
+            ctx.count("default-nodes-high-degree")
+            ctx.case(["default-nodes", name, args], True, {"generator": name, "args": args, "chebyshev_basis": True, "status": out["status"], "cheb_samples": "library default"})
+            if out["status"] == "ok":
+                decide(ctx, drv, name, args, True, out["coefs"], bound_for(name, args), {"generator": name, "args": args, "chebyshev_basis": True})
     for name in G.REG:
         fam = G.REG[name][1]
         if fam == "invrect":
@@ -107,6 +128,14 @@ def run(tier, seed):
                     continue
                 if fam == "erf" and ai < reps:
                     args["max_scale"] = float(rng.uniform(0.05, 1.0)) if rng.random() < 0.7 else 1.0
+                if cb and "cheb_samples" in args:
+                    r = rng.random()
+                    if r < 0.3:
+                        args.pop("cheb_samples")         # the library default (20 nodes), whatever the degree
+                        ctx.count("cheb_samples:library-default" + (":degree>=20" if args.get("degree", 0) >= 20 else ""))
+                    elif r < 0.45:
+                        args["cheb_samples"] = int(args["degree"]) + 1
+                        ctx.count("cheb_samples:degree+1")
                 out = G.call(PL, name, args, True, False, cb)
                 ctx.count("gen:" + name)
                 ctx.case([name, args, cb], True, {"generator": name, "args": args, "chebyshev_basis": cb, "status": out["status"]})
